@@ -4,7 +4,7 @@
 TIER="${1:-quick}"
 cd /verif || exit 2
 for d in seeded/C*/; do
-  n=$(basename "$d"); p=$(echo "$n" | cut -c1-3)
+  n=$(basename "$d"); p=$(python3 -c "import json,sys;m=json.load(open(sys.argv[1]));print(m.get('check_property',sys.argv[2][:3]))" "$d/meta.json" "$n")
   out=$(tools/try_mutant.sh "/verif/$d/patch.diff" "$p" "$TIER" 2>&1)
   rc=$(echo "$out" | sed -n 's/^rc=//p')
   sigs=$(echo "$out" | sed -n 's/^  signature: //p' | sort -u | head -4 | tr '\n' ';')
